@@ -252,6 +252,83 @@ func runC20(c *Ctx) {
 				idx, off = bo.X, k
 			}
 		}
+		// a word counter: index 8·w (or w<<3) for w counting words, 0 ≤ w < len(data)>>3 — then 8w + 8 ≤ 8·(n>>3) ≤ n
+		if width == 8 {
+			var w ssa.Value
+			if bo, ok := idxV.(*ssa.BinOp); ok {
+				switch {
+				case bo.Op == token.MUL && isConstInt(bo.X, 8):
+					w = bo.Y
+				case bo.Op == token.MUL && isConstInt(bo.Y, 8):
+					w = bo.X
+				case bo.Op == token.SHL && isConstInt(bo.Y, 3):
+					w = bo.X
+				}
+			}
+			if wp, ok := w.(*ssa.Phi); ok {
+				isWords := func(v ssa.Value) bool {
+					bo, ok := v.(*ssa.BinOp)
+					if !ok {
+						return false
+					}
+					ln, isLen := isBuiltinCall(bo.X, "len")
+					if !isLen || ln.Call.Args[0] != dataV {
+						return false
+					}
+					return (bo.Op == token.SHR && isConstInt(bo.Y, 3)) || (bo.Op == token.QUO && isConstInt(bo.Y, 8))
+				}
+				below := false
+				for _, cm := range cmpsAt(at) {
+					if cm.X == w && cm.Op == token.LSS && isWords(cm.Y) {
+						below = true
+					}
+				}
+				if !below {
+					// a rotated loop: each value the counter takes is tested against the word count on the edge that brings it
+					below = true
+					for i, e := range wp.Edges {
+						pred := wp.Block().Preds[i]
+						iff, ok := pred.Instrs[len(pred.Instrs)-1].(*ssa.If)
+						edgeOK := false
+						if ok {
+							for si, sb := range pred.Succs {
+								if sb != wp.Block() {
+									continue
+								}
+								sameVal := func(a, b ssa.Value) bool {
+									ka, oka := constInt(a)
+									kb, okb := constInt(b)
+									return a == b || (oka && okb && ka == kb)
+								}
+								if cm, ok := edgeCmp(iff, si); ok && sameVal(cm.X, e) && cm.Op == token.LSS && isWords(cm.Y) {
+									edgeOK = true
+								}
+							}
+						}
+						if !edgeOK {
+							below = false
+						}
+					}
+				}
+				nonneg := true
+				for i, e := range wp.Edges {
+					if wp.Block().Dominates(wp.Block().Preds[i]) {
+						bo, ok := e.(*ssa.BinOp)
+						if !ok || bo.Op != token.ADD || bo.X != ssa.Value(wp) {
+							nonneg = false
+						} else if k, ok := constInt(bo.Y); !ok || k < 0 {
+							nonneg = false
+						}
+					} else if k, ok := constInt(e); !ok || k < 0 {
+						nonneg = false
+					}
+				}
+				if below && nonneg {
+					c.ok("R-UNSAFE-BOUNDS", key, pos, "word "+ksym(w)+" of the len>>3 whole words: 0 ≤ 8w and 8w + 8 ≤ 8·(len>>3) ≤ len")
+					return
+				}
+			}
+		}
 		ph, ok := idx.(*ssa.Phi)
 		if !ok {
 			// loop-free direct form
@@ -553,33 +630,37 @@ func runC20(c *Ctx) {
 		allInstrs(fn, func(in ssa.Instruction) {
 			switch x := in.(type) {
 			case *ssa.Return:
-				r := x.Results[0]
-				key := "mstr.Trunc:return " + ksym(r)
-				if r == ssa.Value(s) {
-					c.ok("R-TRUNC-PREFIX", key, x.Pos(), "returns s itself")
-					return
+				// a single exit that returns "s or the cut s" is a φ of the two: each is judged as if returned
+				var leaves []ssa.Value
+				phiLeaves(x.Results[0], nil, map[ssa.Value]bool{}, &leaves)
+				for _, r := range leaves {
+					key := "mstr.Trunc:return " + ksym(r)
+					if r == ssa.Value(s) {
+						c.ok("R-TRUNC-PREFIX", key, x.Pos(), "returns s itself")
+						continue
+					}
+					sl, ok := r.(*ssa.Slice)
+					if !ok || sl.X != ssa.Value(s) {
+						c.bad("R-TRUNC-PREFIX", key, x.Pos(), "returns something other than s or a slice of s")
+						continue
+					}
+					var probs []string
+					if sl.Low != nil && !isConstInt(sl.Low, 0) {
+						probs = append(probs, "the result does not start at offset 0 (not a prefix)")
+					}
+					if sl.High == nil {
+						probs = append(probs, "no upper bound")
+					} else if !inClosure(sl.High, map[ssa.Value]bool{}) {
+						probs = append(probs, "the cut point "+sym(sl.High)+" is not obtained from n by decrements only (it may exceed n)")
+					}
+					// under the fact n < len(s)
+					db := factsDBAt(sl.Block())
+					ls := "len(" + sym(s) + ")"
+					if !(db.has(sym(n), token.LSS, ls) || db.has(sym(n), token.LEQ, ls)) && !clamped {
+						probs = append(probs, "slicing is reachable without n < len(s): s[:n] can panic")
+					}
+					c.judge(len(probs) == 0, "R-TRUNC-PREFIX", key, x.Pos(), "prefix cut at a point ≤ n < len(s)", fmt.Sprint(probs))
 				}
-				sl, ok := r.(*ssa.Slice)
-				if !ok || sl.X != ssa.Value(s) {
-					c.bad("R-TRUNC-PREFIX", key, x.Pos(), "returns something other than s or a slice of s")
-					return
-				}
-				var probs []string
-				if sl.Low != nil && !isConstInt(sl.Low, 0) {
-					probs = append(probs, "the result does not start at offset 0 (not a prefix)")
-				}
-				if sl.High == nil {
-					probs = append(probs, "no upper bound")
-				} else if !inClosure(sl.High, map[ssa.Value]bool{}) {
-					probs = append(probs, "the cut point "+sym(sl.High)+" is not obtained from n by decrements only (it may exceed n)")
-				}
-				// under the fact n < len(s)
-				db := factsDBAt(sl.Block())
-				ls := "len(" + sym(s) + ")"
-				if !(db.has(sym(n), token.LSS, ls) || db.has(sym(n), token.LEQ, ls)) && !clamped {
-					probs = append(probs, "slicing is reachable without n < len(s): s[:n] can panic")
-				}
-				c.judge(len(probs) == 0, "R-TRUNC-PREFIX", key, x.Pos(), "prefix cut at a point ≤ n < len(s)", fmt.Sprint(probs))
 			case *ssa.BinOp:
 				// a step back of the cut point happens only when the string really has to be cut (n < len(s)):
 				// for n ≥ len(s) the result is s itself, whatever its last character is
